@@ -141,7 +141,7 @@ def main(argv=None):
             print('KNOWN-FINDING: property=%s %s [bucket %s, excluded by construction: %d case(s) steered away]'
                   % (pid, k['what'], b, total.excluded.get(b, 0)))
 
-    rdir = os.path.join(core.VERIF, 'replays', pid)
+    rdir = os.path.join(core.OUTDIR, 'replays', pid)
     replay_paths = {}
     if viol:
         os.makedirs(rdir, exist_ok=True)
@@ -161,7 +161,7 @@ def main(argv=None):
         with open(path, 'w') as fh:
             json.dump({'property': pid, 'bucket': b, 'detail': detail, 'count': rec['count'], 'seed': seed,
                        'tier': a.tier, 'case': case}, fh, indent=1, default=str)
-        replay_paths[b] = os.path.relpath(path, core.VERIF)
+        replay_paths[b] = os.path.relpath(path, core.OUTDIR)
 
     wall = time.time() - t0
     cov = {
@@ -185,8 +185,8 @@ def main(argv=None):
         'coverage': cov, 'assumptions': list(getattr(mod, 'ASSUMPTIONS', [])),
         'wall_s': round(wall, 2), 'violations': len(viol),
     }
-    os.makedirs(os.path.join(core.VERIF, 'evidence'), exist_ok=True)
-    with open(os.path.join(core.VERIF, 'evidence', pid + '.json'), 'w') as fh:
+    os.makedirs(os.path.join(core.OUTDIR, 'evidence'), exist_ok=True)
+    with open(os.path.join(core.OUTDIR, 'evidence', pid + '.json'), 'w') as fh:
         json.dump(ev, fh, indent=1, default=str, sort_keys=True)
         fh.write('\n')
 
